@@ -13,6 +13,7 @@ import MitmVerif.Lemmas.C05_Sub
 import MitmVerif.Lemmas.C05_C03Run
 import MitmVerif.Lemmas.C05_Bytes
 import MitmVerif.Lemmas.C05_First
+import MitmVerif.Lemmas.C05_Crash
 namespace MitmVerif.Props.C05
 open MitmVerif MitmVerif.C05
 
@@ -83,7 +84,8 @@ theorem queue_nonempty_implies_no_capacity (σ : St) (h : Reach σ) (hc : σ.clo
     not the streams mitmproxy keeps book of (`Http2Connection.streams`, which is only pruned when the SERVER ends or
     resets a stream): a stream the proxy resets upstream itself (a forwarded client RST_STREAM) is closed at once and
     frees its slot, whatever the server does afterwards.  Together with `queue_nonempty_implies_no_capacity` (`noFree` is
-    `limit ≤ conn.openCount`): a queued stream is left waiting only while the server's own count is at the limit. -/
+    `limit ≤ conn.openCount`): a queued stream is left waiting only while the server's own count is at the limit.
+    The second conjunct is true BY DEFINITION (`rfl`): it only spells out what `noFree` counts, it is no finding of its own. -/
 theorem reset_frees_slot (σ : St) (o : Nat) :
     (σ.process o .err).conn.closedS o = true ∧
     (σ.noFree = decide (σ.limit ≤ (σ.conn.streams.filter (fun p => !p.2.closed)).length)) := by
@@ -127,7 +129,8 @@ theorem response_routed (σ : St) (h : Reach σ) :
   have := inv.up u hu o ho
   exact ⟨this, inv.map.fwd _ _ this⟩
 
-/-- `HttpLayer.streams`: an event is delivered to the stream object registered under its own id, or dropped -/
+/-- MODEL-LEVEL SANITY LEMMA (not tied: the driver never runs `route`): in the model of `HttpLayer.streams` an event is
+    delivered to the stream object registered under its own id, or dropped — this is `alookup` membership. -/
 theorem route_own_stream {α : Type} (streams : List (Nat × α)) (sid : Nat) (s : α) (h : route streams sid = some s) :
     (sid, s) ∈ streams := alookup_mem sid s streams h
 
@@ -161,7 +164,11 @@ theorem stream_ok_invariant (c : Conn) (s sid : Nat) (d : Bytes) (fin : Bool) :
 /-- `Http2Server` hands every event up with the stream id hyper-h2 reported it on (the identity; which frames belong
     to which stream is hyper-h2's demultiplexing).  `HttpLayer` then looks the id up in `streams`: after any sequence
     of `make_stream` / `DropStream`, the object found under an id is the `HttpStream` that was created FOR that id —
-    so the events of a client stream reach exactly the HttpStream registered under its id, or nobody. -/
+    so the events of a client stream reach exactly the HttpStream registered under its id, or nobody.
+    MODEL-LEVEL SANITY LEMMA: `applyLayerOp (.make sid)` stores `⟨sid⟩` under `sid` by definition and no driver op runs
+    `route` / `applyLayerOp` against the real `HttpLayer`; it documents the modelling of `HttpLayer.streams`, it proves
+    nothing about mitmproxy.  The client-facing half of "every flow carries … of its own stream" rests on the oracle (what
+    the peers decode per stream) and on hyper-h2's demultiplexing. -/
 theorem demux_own_stream (ops : List LayerOp) (sid : Nat) (s : HStream)
     (h : route (ops.foldl applyLayerOp []) sid = some s) : s.id = sid := by
   have inv : ∀ (ops : List LayerOp) (l : List (Nat × HStream)), (∀ p ∈ l, p.2.id = p.1) →
@@ -412,5 +419,57 @@ example : Good au3 1 .trailers :=
 -- hyper-h2 would never report (trailers on a stream id that was never opened); "cannot happen" rests on hyper-h2, not on a theorem
 example : (St.init.step (.server [.respTrailers 7])).crashed = true ∧ Reach (St.init.step (.server [.respTrailers 7])) :=
   ⟨by decide, Reach.server _ _ Reach.init⟩
+
+/-! ### owner fixes after the round-6 audit -/
+
+/-- … and likewise when it is a RECEIVED SEGMENT that makes the connection go away (GOAWAY, a protocol error, a response
+    head mitmproxy refuses): in every reachable state, if handling the segment closes the connection, every stream
+    still waiting for a slot is failed.  With `no_stream_lost_on_close` (the transport closing) these are the only two
+    inputs that close the connection: a client event never does (`step_client_inv`). -/
+theorem no_stream_lost_on_segment_close (σ : St) (h : Reach σ) (hc : σ.closed = false) (evs : List SEv)
+    (hcl : (σ.step (.server evs)).closed = true) :
+    ∀ t ∈ qkeys σ, (t, UpKind.err, none) ∈ (σ.step (.server evs)).up := by
+  have hI := reach_inv σ h
+  have hq := hI.live hc
+  let σa : St := { σ with conn := σ.conn.absorb evs,
+                          maxc := evs.foldl (fun m e => match e with | .settings (some v) _ _ => v | _ => m) σ.maxc }
+  have hsa : Same σ σa := ⟨rfl, rfl, rfl, rfl, rfl, rfl, rfl, rfl, rfl⟩
+  have hb := handleAll_ok evs σa (mapInv_of_same hsa hI.map) hI.up
+  have hsb : Same σ (St.handleAll σa evs) := hsa.trans hb.1
+  have hstep : σ.step (.server evs) = (if (St.handleAll σa evs).closed = true then (St.handleAll σa evs).failQueued
+      else St.drain ((St.handleAll σa evs).resume.pending + 1) (St.handleAll σa evs).resume) := by
+    simp only [St.step]
+    rw [if_neg (by rw [hc]; simp)]
+    rfl
+  rw [hstep] at hcl ⊢
+  by_cases hcb : (St.handleAll σa evs).closed = true
+  · simp only [hcb, if_true]
+    intro t ht
+    simp only [St.failQueued, hsb.queue]
+    apply List.mem_append_right
+    simp only [qkeys, List.mem_map] at ht ⊢
+    obtain ⟨p, hp, rfl⟩ := ht
+    exact ⟨p, hp, rfl⟩
+  · exfalso
+    have hcbf : (St.handleAll σa evs).closed = false := by simpa using hcb
+    rw [if_neg hcb] at hcl
+    have hmid := midInv_of_same hsb hb.2 hq
+    have hdr := resume_inv _ hmid
+    have hcl2 : (St.handleAll σa evs).resume.closed = false := by rw [(resume_pending _).2]; exact hcbf
+    have := (drain_inv ((St.handleAll σa evs).resume.pending + 1) _ hdr hcl2 (by omega)).2
+    rw [this] at hcl; cases hcl
+
+/-- a client event never closes the connection -/
+theorem client_event_never_closes (σ : St) (h : Reach σ) (hc : σ.closed = false) (t : Nat) (ev : Ev) (hg : Good σ t ev) :
+    (σ.step (.client t ev)).closed = false :=
+  (step_client_inv σ t ev ((reach_inv σ h).live hc) hc hg).2
+
+/-- **crashed_only_by_unknown_trailers.** The `KeyError` branch of the stream-id translation (`crashed`) is never taken in
+    any history in which hyper-h2 reports received trailers only for stream ids that were opened on this connection
+    (`ReachT` = `Reach` + that one assumption, `TrOk`): every other lookup is guarded by `Http2Connection.streams`, whose
+    keys all have a client stream id.  Without the assumption it IS reachable (the auditor's witness: `.respTrailers 7`
+    on a fresh connection) — that hyper-h2 never reports such an event is trusted, and watched by the lock-step `X=` flag. -/
+theorem crashed_only_by_unknown_trailers (σ : St) (h : ReachT σ) : σ.crashed = false ∧ Reach σ :=
+  ⟨(reachT_c σ h).ok, reachT_reach σ h⟩
 
 end MitmVerif.Props.C05
